@@ -84,6 +84,17 @@ function injections(p) {
         out.push({ name: `script-module-under-childless:${t.node.k}@${t.off}`, text: text.slice(0, t.off) + `><wxs module="zz9">exports.a = 1</wxs></${tag}>` + text.slice(t.offEnd), expect: ['child nodes are not allowed for this element'] })
         out.push({ name: `import-under-childless:${t.node.k}@${t.off}`, text: text.slice(0, t.off) + `><import src="zz9"/></${tag}>` + text.slice(t.offEnd), expect: ['child nodes are not allowed for this element'] })
       }
+      // ... also when the moved child repeats a name that is already defined (it is dropped with a note, not recorded)
+      if (t.node.k !== 'wxs') {
+        out.push({ name: `duplicate-template-definition-under-childless:${t.node.k}@${t.off}`, text: '<template name="zz9">y</template>' + text.slice(0, t.off) + `><template name="zz9">x</template></${tag}>` + text.slice(t.offEnd), expect: ['child nodes are not allowed for this element'] })
+        out.push({ name: `duplicate-script-module-under-childless:${t.node.k}@${t.off}`, text: '<wxs module="zz9">exports.a = 2</wxs>' + text.slice(0, t.off) + `><wxs module="zz9">exports.a = 1</wxs></${tag}>` + text.slice(t.offEnd), expect: ['child nodes are not allowed for this element'] })
+        out.push({ name: `second-import-under-childless:${t.node.k}@${t.off}`, text: '<import src="zz9"/>' + text.slice(0, t.off) + `><import src="zz9"/></${tag}>` + text.slice(t.offEnd), expect: ['child nodes are not allowed for this element'] })
+      } else {
+        // script text inside a <wxs src> whose module name repeats an earlier one
+        const tagStart = text.lastIndexOf('<wxs', t.off)
+        const mm = /module=(?:"([^"]*)"|'([^']*)')/.exec(text.slice(tagStart, t.off))
+        if (mm) out.push({ name: `text-under-childless-with-duplicate-name:wxs@${t.off}`, text: `<wxs module="${mm[1] || mm[2]}">exports.a = 2</wxs>` + text.slice(0, t.off) + `>t</${tag}>` + text.slice(t.offEnd), expect: ['child nodes are not allowed for this element'] })
+      }
       out.push({ name: `child-after-comment-under-childless:${t.node.k}@${t.off}`, text: text.slice(0, t.off) + `><!-- c --><x/></${tag}>` + text.slice(t.offEnd), expect: ['child nodes are not allowed for this element'] })
       out.push({ name: `child-after-blank-under-childless:${t.node.k}@${t.off}`, text: text.slice(0, t.off) + `>\n  <x/>\n</${tag}>` + text.slice(t.offEnd), expect: ['child nodes are not allowed for this element'] })
       // (not a defect: a comment, with or without blanks around it, is no child node)
